@@ -231,3 +231,87 @@ class KeyTable(Obligation):
         if len(want)<2 and 'dropped_alias' not in self.seen: self.seen.add('dropped_alias'); rec['wit'].append('dropped_alias')
         rec['sample']={'scenario':scn,'expect':'kept:'+','.join(sorted(got))}
         return rec
+
+class KeyJson(Obligation):
+    """keys and layout key tables that arrive as JSON: the identifier stated inside the key document (or the identifier a table
+    entry is filed under) is caller-chosen text; after decoding, a key's identifier is its intrinsic one and a table never maps
+    an identifier to a key with another intrinsic identifier"""
+    name='C12.key_json'
+    hash_order='all'
+    STATED=['absent','own','other','unrelated','short']
+    def __init__(self,seed=0,known=(),**kw):
+        self.seed=seed
+        self.bounds={'documents':'a PublicKey document, and a LayoutMetadata document with a 2-entry key table, decoded from text (borrowed channel) and from a tree',
+                     'stated keyid member of each key document':self.STATED,'table entries filed under':['own id','the other key\'s id','an unrelated id'],'keys':'two ed25519 keys (concrete bytes); reference ids computed independently (SHA-256 of the reference canonical description)'}
+        self.witnesses=['key_accepted','table_entry_kept','table_entry_dropped']; self.seen=set()
+    def setup(self,eng,tier): self.eng=eng; self.b=B(eng)
+    def keydoc(self,pub,stated,ids,i):
+        d={'keyid_hash_algorithms':['sha256','sha512'],'keytype':'ed25519','keyval':{'public':pub.hex()},'scheme':'ed25519'}
+        if stated!='absent': d['keyid']={'own':ids[i],'other':ids[1-i],'unrelated':'ab'*32,'short':'abc'}[stated]
+        return d
+    def entry(self,eng):
+        from mirsym import models_de as md
+        from .C14 import py_to_value
+        def go(run,args):
+            ty,doc=args; outs=[]
+            for ch in ('borrowed','tree'):
+                try: outs.append(('ok',md.de_type(eng,run,ty,py_to_value(doc),ch)))
+                except md.DeFail: outs.append(('err',None))
+            return outs
+        return go
+    def mk_args(self,run):
+        from .signed import ed25519_keyid
+        pubs=[bytes(FIXTURE_ED25519_PUB),bytes([FIXTURE_ED25519_PUB[0]^1])+bytes(FIXTURE_ED25519_PUB[1:])]
+        ids=[ed25519_keyid(p) for p in pubs]
+        what=['key','layout'][run.pick(2,'what')]
+        st=[self.STATED[run.pick(len(self.STATED),'stated%d'%i)] for i in range(2 if what=='layout' else 1)]
+        if what=='key':
+            doc=self.keydoc(pubs[0],st[0],ids,0); ty='PublicKey'; filed=None
+        else:
+            filed=[[ids[i],ids[1-i],'cd'*32][run.pick(3,'filed%d'%i)] for i in range(2)]
+            if filed[0]==filed[1]: raise Infeasible()
+            doc={'_type':'layout','expires':'2100-01-01T00:00:00Z','readme':'','keys':{filed[i]:self.keydoc(pubs[i],st[i],ids,i) for i in range(2)},'steps':[],'inspect':[]}; ty='LayoutMetadata'
+        return [ty,doc],{'what':what,'doc':doc,'ids':ids,'pubs':pubs,'filed':filed,'stated':st,'ty':ty}
+    def describe(self,g,val):
+        """'mapid=keyid' pairs (layout) or the key id (key) of a decoded value"""
+        b=self.b
+        kid=lambda k: bytes(byte_list(deref(b.get(k,'key_id')).f[0])).decode(errors='replace')
+        pubof=lambda k: bytes(x if isinstance(x,int) else x.v for x in byte_list(deref(b.get(k,'value')).f[0]))
+        if g['what']=='key': return [('-',kid(val),pubof(val))]
+        table=deref(b.get(val,'keys'))
+        return sorted((bytes(byte_list(deref(k).f[0])).decode(errors='replace'),kid(v),pubof(v)) for k,v in table.e)
+    def check(self,run,out,g):
+        rec={'outcome':'?','viol':None,'wit':[],'sample':None,'obl':1}
+        scn={'kind':'keyjson','type':g['ty'],'doc':g['doc']}
+        if out[0]!='ret':
+            rec['outcome']='panic'; rec['viol']={'kind':'panic_key_json','known_key':None,'scenario':scn,'predicted':'panic','what':'decoding a key document panics: '+str(out[1])[:200]}; return rec
+        from .signed import ed25519_keyid
+        kinds=[o[0] for o in out[1]]; rec['outcome']='/'.join(kinds)
+        def W(n):
+            if n not in self.seen: self.seen.add(n); rec['wit'].append(n)
+        pred=[]
+        for (k,val) in out[1]:
+            if k!='ok': pred.append('err'); continue
+            ents=self.describe(g,val)
+            pred.append(';'.join('%s=%s'%(a,c) for a,c,_ in ents))
+            for mapid,keyid,pub in ents:
+                intrinsic=ed25519_keyid(pub)
+                if keyid!=intrinsic:
+                    rec['viol']={'kind':'key_id_not_intrinsic','known_key':None,'scenario':scn,'predicted':'/'.join(pred),'what':'a key read from JSON reports identifier %s but its intrinsic identifier is %s (stated keyid member: %s)'%(keyid[:8],intrinsic[:8],g['stated'])}
+                if mapid!='-' and mapid!=intrinsic:
+                    rec['viol']={'kind':'aliased_key_table_entry','known_key':None,'scenario':scn,'predicted':'/'.join(pred),'what':'a parsed layout maps identifier %s to a key whose intrinsic identifier is %s (stated keyid members: %s)'%(mapid[:8],intrinsic[:8],g['stated'])}
+            if g['what']=='key': W('key_accepted')
+            else:
+                if ents: W('table_entry_kept')
+                if len(ents)<2: W('table_entry_dropped')
+                # entries filed under the key's own intrinsic id and not contradicted by a stated id must survive
+                want=sorted(g['ids'][i] for i in range(2) if g['filed'][i]==g['ids'][i] and g['stated'][i] in ('absent','own'))
+                if not set(want)<=set(a for a,_,_ in ents) and not rec['viol']:
+                    rec['viol']={'kind':'own_key_table_entry_dropped','known_key':None,'scenario':scn,'predicted':'/'.join(pred),'what':'a key filed under its own identifier is missing from the parsed layout'}
+        if rec['viol']:
+            # fill in the complete prediction (all channels) for the native comparison
+            full=[]
+            for (k,val) in out[1]: full.append('err' if k!='ok' else ';'.join('%s=%s'%(a,c) for a,c,_ in self.describe(g,val)))
+            rec['viol']['predicted']='/'.join(full); return rec
+        rec['sample']={'scenario':scn,'expect':'/'.join(pred)}
+        return rec
